@@ -870,7 +870,8 @@ class Interp:
                 if key not in self._mod_objs:
                     o_ = Opaque(node.id, "obj")
                     tl = mod.toplevel[node.id]
-                    ext_call = isinstance(tl, ast.Assign) and isinstance(tl.value, ast.Call) and (self.proj.dotted(tl.value.func, mod, None) or "") in self.ext_summaries
+                    dn_ = (self.proj.dotted(tl.value.func, mod, None) or "") if isinstance(tl, ast.Assign) and isinstance(tl.value, ast.Call) else ""
+                    ext_call = bool(dn_) and (dn_ in self.ext_summaries or dn_ in ("itertools.count", "collections.defaultdict", "collections.OrderedDict", "collections.Counter"))
                     if isinstance(tl, ast.Assign) and (isinstance(tl.value, (ast.Dict, ast.Tuple, ast.List, ast.Lambda)) or ext_call):
                         # a module-level table the constant folder cannot represent (it holds lambdas / classes): evaluated here
                         try:
@@ -1527,6 +1528,11 @@ class Interp:
             return list(_it.islice(pos[0], *pos[1:]))
         if name == "itertools.chain.from_iterable" and len(pos) == 1 and isinstance(pos[0], (list, tuple)) and all(isinstance(x, (list, tuple)) for x in pos[0]):
             return [y for x in pos[0] for y in x]
+        if name == "itertools.count":
+            import itertools as _it2
+            a_ = [x for x in list(pos) + [kw[k] for k in ("start", "step") if k in kw]]
+            if all(isinstance(x, int) and not isinstance(x, bool) for x in a_):
+                return HostIter(_it2.count(*a_), "count")
         if name == "itertools.groupby" and pos and isinstance(pos[0], (list, tuple, StreamVal, HostIter)):
             # runs of consecutive items with equal keys; each group is one-shot (next() / iteration consume it)
             keyf = kw.get("key", pos[1] if len(pos) > 1 else None)
